@@ -1450,6 +1450,21 @@ static void run_eval_step(sexp ctx, sexp env, const std::string& src, StepResult
 // while further allocations (and forced collections) happen; afterwards every register is written out.
 // Script: list of [op, dst, a, b, text]; registers 0..7.
 
+// does `from` reach `target` through pairs and vectors? (bounded; "yes" when the bound is hit)
+static bool embed_reaches(sexp from, sexp target) {
+  std::vector<sexp> todo{from};
+  std::set<sexp> seen;
+  while (!todo.empty()) {
+    sexp x = todo.back(); todo.pop_back();
+    if (x == target) return true;
+    if (!x || !sexp_pointerp(x) || !seen.insert(x).second) continue;
+    if (seen.size() > 20000) return true;
+    if (sexp_pairp(x)) { todo.push_back(sexp_car(x)); todo.push_back(sexp_cdr(x)); }
+    else if (sexp_vectorp(x)) for (sexp_uint_t i = 0; i < sexp_vector_length(x); ++i) todo.push_back(sexp_vector_ref(x, sexp_make_fixnum(i)));
+  }
+  return false;
+}
+
 static std::string run_embed_script(sexp ctx, sexp env, const js::Value& script) {
   sexp_gc_var4(r0, r1, r2, r3);
   sexp r4 = SEXP_VOID, r5 = SEXP_VOID, r6 = SEXP_VOID, r7 = SEXP_VOID, t1 = SEXP_VOID, t2 = SEXP_VOID;
@@ -1478,7 +1493,10 @@ static std::string run_embed_script(sexp ctx, sexp env, const js::Value& script)
     else if (op == "flonum") *R[d] = sexp_make_flonum(ctx, (double)num / 8.0);
     else if (op == "bignum") { t1 = sexp_make_integer(ctx, (sexp_lsint_t)num * 1000003); t2 = sexp_make_integer(ctx, (sexp_lsint_t)1 << 62); *R[d] = sexp_mul(ctx, t1, t2); }
     else if (op == "vector") { *R[d] = sexp_make_vector(ctx, sexp_make_fixnum((num & 15) + 1), *R[b]); }
-    else if (op == "vset") { if (sexp_vectorp(*R[d]) && sexp_vector_length(*R[d]) > 0) sexp_vector_set(*R[d], SEXP_ZERO, *R[a]); }
+    else if (op == "vset") {
+      // (never closes a cycle: the transcript is produced by the plain writer)
+      if (sexp_vectorp(*R[d]) && sexp_vector_length(*R[d]) > 0 && !embed_reaches(*R[a], *R[d])) sexp_vector_set(*R[d], SEXP_ZERO, *R[a]);
+    }
     else if (op == "push") { sexp_push(ctx, *R[d], *R[a]); }
     else if (op == "apply") {
       t1 = sexp_eval_string(ctx, text.c_str(), -1, env);
